@@ -78,7 +78,14 @@ def assumption_checks(ctx, acc, spec, rd):
     if len(pts) < 2:
         return          # one point: the repository's own ConstantSpline, not an external component
     for t, c in pts:
-        acc.see('interpolates', abs(float(sp(t)) - c) / cmax, 1e-10)
+        err = abs(float(sp(t)) - c) / cmax
+        if err > 1e-6:
+            # far beyond anything SciPy's interpolation could be blamed for: the object holds an interpolant of OTHER data
+            # (e.g. a stale one kept across an update) — a failure of the code on this input, not of the assumption
+            ctx.violation("the correlation's interpolant does not reproduce the tabulated Cp/R it was built from",
+                          {'spec': spec, 'T': t}, expected=c, observed=float(sp(t)))
+            return
+        acc.see('interpolates', err, 1e-10)
     mn, mx = pts[0][0], pts[-1][0]
     rng = ctx.rng
     pp = L.ppoly_of(rd)
@@ -336,7 +343,7 @@ def grid(ctx, batch, acc, reps):
                     for t, c in temps.items():
                         ctx.count('T_' + c)
                     if kind != 'raw' and rng.random() < 0.3:
-                        spec['via_update'] = True
+                        spec['via_update'] = rng.choice([True, 'range'])
                         ctx.count('built_via_update')
                     check_correlation(ctx, spec, sorted(temps.items()), batch, (kind, n, rkind, pact), acc)
         if ctx.time_left() < 120:
